@@ -3,6 +3,7 @@ package zzh
 import (
 	"math"
 
+	"github.com/sahandsafizadeh/qeep/component/initializers"
 	"github.com/sahandsafizadeh/qeep/component/layers"
 	"github.com/sahandsafizadeh/qeep/component/layers/activations"
 	"github.com/sahandsafizadeh/qeep/component/optimizers"
@@ -206,10 +207,27 @@ func c11Setup() (md c11Model, fc *layers.FC, x T, xe []float64, y T, te []float6
 	if md.act == "LeakyRelu" {
 		md.m = vrt.Float("m")
 	}
-	we, be = elems("w", md.O), elems("b", md.O)
-	fc, ok = newFC(0, md.F, md.O, we, be)
-	if !ok {
-		return
+	if vrt.Param("sharedinit") == 1 {
+		// one library initializer object serves both parameters (W and B start at the same constant)
+		c := vrt.Float("c")
+		full := initializers.NewFull(&initializers.FullConfig{Value: c})
+		var err error
+		fc, err = layers.NewFC(&layers.FCConfig{Inputs: md.F, Outputs: md.O, Initializers: map[string]layers.Initializer{"Weight": full, "Bias": full}})
+		if err != nil || fc == nil {
+			vrt.Assert("FC with a shared Full initializer accepted", false)
+			return
+		}
+		we, be = make([]float64, md.O), make([]float64, md.O)
+		for o := range we {
+			we[o], be[o] = c, c
+		}
+		ok = true
+	} else {
+		we, be = elems("w", md.O), elems("b", md.O)
+		fc, ok = newFC(0, md.F, md.O, we, be)
+		if !ok {
+			return
+		}
 	}
 	x, xe = mk("x", []int{md.B, md.F}, false)
 	tdims := []int{md.B}
